@@ -42,6 +42,8 @@ import (
 	"github.com/openGemini/openGemini/lib/util/lifted/influx/query"
 	"github.com/openGemini/openGemini/lib/util/lifted/protobuf/proto"
 	"github.com/openGemini/openGemini/lib/util/lifted/vm/protoparser/influx"
+
+	"verif/harness/internal/hx"
 )
 
 const (
@@ -171,7 +173,14 @@ func (s *shardStore) WriteRows(ctx *netstorage.WriteContext, nodeID uint64, pt u
 	}
 	s.mu.Lock()
 	defer s.mu.Unlock()
-	return s.e.sh.Write(ctx.Rows)
+	// (this runs in a goroutine of the points writer: a panic of the shard's write path must come
+	// back as a failed write with the scenario as replay, not end the run)
+	var err error
+	if perr := hx.Safe(func() { err = s.e.sh.Write(ctx.Rows) }); perr != "" {
+		s.e.panics = append(s.e.panics, perr)
+		return fmt.Errorf("shard write: %s", perr)
+	}
+	return err
 }
 
 // recStore records what the points writer would send (handler ops).
@@ -197,6 +206,7 @@ type e2eEnv struct {
 	client *metaclient.Client
 	h      *httpd.Handler
 	pw     *coordinator.PointsWriter
+	panics []string // panics of the shard's write path (reported by the runner)
 }
 
 func newCatalogue() (*meta.Data, error) {
